@@ -271,8 +271,22 @@ func (x *fcx) lean() string {
 		return "(" + x.a[0].lean() + " ++ [" + strings.Join(parts, ", ") + "])"
 	case "rep":
 		return "(" + x.a[0].lean() + " ++ List.replicate (Int.toNat " + x.a[1].lean() + ") " + strconv.Itoa(int(x.bs[0])) + ")"
+	case "loopres": // component n of the final state of loop `name` started with the values a[1:] and the fuel a[0]
+		return fmt.Sprintf("(fcNth ((%s i (Int.toNat %s) %s).getD []) %d)", x.name, x.a[0].lean(), fcLeanList(x.a[1:]), x.n)
+	case "loopok": // the fuel sufficed
+		return fmt.Sprintf("(%s i (Int.toNat %s) %s).isSome", x.name, x.a[0].lean(), fcLeanList(x.a[1:]))
+	case "var": // a variable of a loop state
+		return fmt.Sprintf("(fcNth s %d)", x.n)
 	}
 	return "sorryUnknownOp_" + x.op
+}
+
+func fcLeanList(xs []*fcx) string {
+	parts := make([]string, len(xs))
+	for i, a := range xs {
+		parts[i] = a.lean()
+	}
+	return "[" + strings.Join(parts, ", ") + "]"
 }
 
 func (x *fcx) inputs(seen map[string]*fcx) {
@@ -293,6 +307,8 @@ type fcExec struct {
 	inputs  map[string]*fcx // every input created
 	depth   int
 	declared map[string]*fcx // names declared in the block being executed -> the outer binding they hide
+	loops    []fcLoop        // while loops translated into fuel-recursive definitions (of the function being run)
+	fn       string          // the function being run
 	unknown []string // constructs treated as opaque (for the comment in the generated file)
 }
 
@@ -500,6 +516,11 @@ func (x *fcExec) eval(e ast.Expr, env fcEnv, want byte) *fcx {
 		case strings.HasSuffix(name, ".RealValue") && len(te.Args) == 0:
 			return x.eval(te.Fun.(*ast.SelectorExpr).X, env, 'i')
 		case name == "len" && len(te.Args) == 1:
+			if id, ok := te.Args[0].(*ast.Ident); ok {
+				if v, has := env["#"+id.Name]; has {
+					return v // a byte slice the function builds: its length is tracked
+				}
+			}
 			return x.input("len "+types.ExprString(te.Args[0]), 'i', true)
 		case (name == "c.getIntParam" || name == "c.getCharParam") && len(te.Args) >= 3:
 			// compositional: the decoded parameter is an input; getIntParam itself is translated separately
@@ -622,6 +643,42 @@ func (x *fcExec) declare(name string, env fcEnv) {
 		x.declared[name] = env[name] // nil when there is no outer variable of that name
 	}
 }
+
+// sliceAppend: `v = append(v, X...)` / `v = append(v, 'c')` for a byte slice v whose length is tracked
+func (x *fcExec) sliceAppend(as *ast.AssignStmt, env fcEnv) (string, *fcx, bool) {
+	if len(as.Lhs) != 1 || len(as.Rhs) != 1 {
+		return "", nil, false
+	}
+	id, ok := as.Lhs[0].(*ast.Ident)
+	if !ok {
+		return "", nil, false
+	}
+	if _, tracked := env["#"+id.Name]; !tracked {
+		return "", nil, false
+	}
+	ce, ok := as.Rhs[0].(*ast.CallExpr)
+	if !ok || fcCallName(ce) != "append" || len(ce.Args) < 2 || types.ExprString(ce.Args[0]) != id.Name {
+		return "", nil, false
+	}
+	if ce.Ellipsis.IsValid() {
+		if len(ce.Args) != 2 {
+			return "", nil, false
+		}
+		if s, isLit := fmtStrLit(ce.Args[1]); isLit {
+			return id.Name, fcConst(int64(len(s))), true
+		}
+		if a, isId := ce.Args[1].(*ast.Ident); isId {
+			if v, has := env["#"+a.Name]; has {
+				return id.Name, v, true
+			}
+			return id.Name, x.input("len "+a.Name, 'i', true), true
+		}
+		return "", nil, false
+	}
+	return id.Name, fcConst(int64(len(ce.Args) - 1)), true
+}
+
+func fcIsByteSlice(t ast.Expr) bool { return t != nil && types.ExprString(t) == "[]byte" }
 
 func fcZero(t ast.Expr) *fcx {
 	if id, ok := t.(*ast.Ident); ok {
@@ -765,6 +822,10 @@ func (x *fcExec) stmt(s ast.Stmt, env fcEnv) {
 					env[n.Name] = x.eval(vs.Values[i], env, 0)
 				case vs.Type != nil && fcZero(vs.Type) != nil:
 					env[n.Name] = fcZero(vs.Type)
+				case fcIsByteSlice(vs.Type):
+					delete(env, n.Name)
+					x.declare("#"+n.Name, env)
+					env["#"+n.Name] = fcConst(0) // an empty byte slice: only its length is followed
 				default:
 					delete(env, n.Name)
 				}
@@ -796,6 +857,17 @@ func (x *fcExec) stmt(s ast.Stmt, env fcEnv) {
 				}
 				env[k] = x.input("out written", 'l', false)
 				return
+			}
+			if name, n, ok := x.sliceAppend(ts, env); ok {
+				env["#"+name] = fcBin("+", env["#"+name], n)
+				return
+			}
+			if id, ok := ts.Lhs[0].(*ast.Ident); ok {
+				if _, tracked := env["#"+id.Name]; tracked {
+					x.eval(ts.Rhs[0], env, 0)
+					env["#"+id.Name] = x.input("len "+id.Name, 'i', false) // written by something else: unknown length
+					return
+				}
 			}
 			var want byte
 			if k, ok := fcKey(ts.Lhs[0]); ok {
@@ -899,7 +971,7 @@ func (x *fcExec) stmt(s ast.Stmt, env fcEnv) {
 	case *ast.TypeSwitchStmt:
 		x.typeSwitch(ts, env)
 	case *ast.ForStmt:
-		if x.countdown(ts, env) {
+		if x.countdown(ts, env) || x.whileLoop(ts, env) {
 			return
 		}
 		x.havocLoop(ts, env)
@@ -911,8 +983,9 @@ func (x *fcExec) stmt(s ast.Stmt, env fcEnv) {
 }
 
 // for ; 0 < n; n-- { c.out = append(c.out, 'x') }  ==>  out ++ replicate n 'x', n = min n 0
+// for i := e; 0 < i; i-- { pad = append(pad, padchar...) }  ==>  len(pad) += max e 0 * len(padchar)
 func (x *fcExec) countdown(fs *ast.ForStmt, env fcEnv) bool {
-	if fs.Init != nil || fs.Cond == nil || fs.Post == nil || len(fs.Body.List) != 1 {
+	if fs.Cond == nil || fs.Post == nil || len(fs.Body.List) != 1 {
 		return false
 	}
 	be, ok := fs.Cond.(*ast.BinaryExpr)
@@ -937,21 +1010,143 @@ func (x *fcExec) countdown(fs *ast.ForStmt, env fcEnv) bool {
 		return false
 	}
 	as, ok := fs.Body.List[0].(*ast.AssignStmt)
-	if !ok || len(as.Lhs) != 1 || len(as.Rhs) != 1 || types.ExprString(as.Lhs[0]) != "c.out" {
+	if !ok || len(as.Lhs) != 1 || len(as.Rhs) != 1 {
 		return false
 	}
-	ce, ok := as.Rhs[0].(*ast.CallExpr)
-	if !ok || fcCallName(ce) != "append" {
+	local := false
+	var n *fcx
+	if fs.Init != nil {
+		ini, ok := fs.Init.(*ast.AssignStmt)
+		if !ok || ini.Tok != token.DEFINE || len(ini.Lhs) != 1 || len(ini.Rhs) != 1 || types.ExprString(ini.Lhs[0]) != id.Name {
+			return false
+		}
+		n = x.eval(ini.Rhs[0], env, 'i')
+		local = true
+	}
+	count := func() *fcx { return fcIte(fcBin("<", fcConst(0), n), n, fcConst(0)) }
+	if types.ExprString(as.Lhs[0]) == "c.out" {
+		ce, ok := as.Rhs[0].(*ast.CallExpr)
+		if !ok || fcCallName(ce) != "append" {
+			return false
+		}
+		bs, ok := fcAppendBytes(ce)
+		if !ok || len(bs) != 1 {
+			return false
+		}
+		if n == nil {
+			n = x.eval(id, env, 'i')
+		}
+		cur := x.eval(as.Lhs[0], env, 'l')
+		env["c.out"] = &fcx{op: "rep", typ: 'l', a: []*fcx{cur, n}, bs: bs}
+	} else {
+		if n == nil {
+			n = x.eval(id, env, 'i')
+		}
+		name, unit, ok := x.sliceAppend(as, env)
+		if !ok {
+			return false
+		}
+		env["#"+name] = fcBin("+", env["#"+name], fcBin("*", count(), unit))
+	}
+	if !local {
+		env[id.Name] = fcIte(fcBin("<", fcConst(0), n), fcConst(0), n)
+	}
+	return true
+}
+
+type fcLoop struct {
+	name string
+	vars []string // the variables the loop changes, in the order of the state list
+	cond *fcx     // over "var" nodes (the state) and inputs
+	next []*fcx   // the state after one round
+}
+
+// whileLoop: `for A < B { body }` whose body is straight-line code over integers (no calls on the control,
+// no return / panic) becomes a fuel-recursive definition over the list of the variables it changes. The
+// fuel is the gap B - A at the start plus 1 (every round must close it by at least 1: the theorem that
+// uses the loop proves `isSome`, i.e. that this fuel sufficed, together with the value).
+func (x *fcExec) whileLoop(fs *ast.ForStmt, env fcEnv) bool {
+	if fs.Init != nil || fs.Post != nil || fs.Cond == nil {
 		return false
 	}
-	bs, ok := fcAppendBytes(ce)
-	if !ok || len(bs) != 1 {
+	be, ok := fs.Cond.(*ast.BinaryExpr)
+	if !ok || (be.Op != token.LSS && be.Op != token.GTR) {
 		return false
 	}
-	n := x.eval(id, env, 'i')
-	cur := x.eval(as.Lhs[0], env, 'l')
-	env["c.out"] = &fcx{op: "rep", typ: 'l', a: []*fcx{cur, n}, bs: bs}
-	env[id.Name] = fcIte(fcBin("<", fcConst(0), n), fcConst(0), n)
+	bad := false
+	ast.Inspect(fs.Body, func(n ast.Node) bool {
+		switch tn := n.(type) {
+		case *ast.ReturnStmt, *ast.BranchStmt, *ast.GoStmt, *ast.DeferStmt:
+			bad = true
+		case *ast.CallExpr:
+			name := fcCallName(tn)
+			if name != "append" && name != "len" && name != "int" {
+				bad = true
+			}
+		}
+		return !bad
+	})
+	if bad {
+		return false
+	}
+	set := map[string]bool{}
+	x.assigned(fs.Body, set)
+	var vars []string
+	for k := range set {
+		key := k
+		if _, tracked := env["#"+k]; tracked {
+			key = "#" + k
+		}
+		if _, has := env[key]; !has {
+			continue // a local of the body
+		}
+		if env[key].typ != 'i' {
+			return false
+		}
+		vars = append(vars, key)
+	}
+	sort.Strings(vars)
+	if len(vars) == 0 {
+		return false
+	}
+	inner := env.clone()
+	for i, v := range vars {
+		inner[v] = &fcx{op: "var", typ: 'i', n: int64(i), name: v}
+	}
+	savedDecl := x.declared
+	x.declared = map[string]*fcx{}
+	cond := x.eval(fs.Cond, inner, 'b')
+	before := len(x.loops)
+	x.block(fs.Body.List, inner)
+	x.declared = savedDecl
+	if len(x.loops) != before || !fcStop(inner).isFalse() {
+		x.loops = x.loops[:before]
+		return false // nested general loops / exits are not translated
+	}
+	lp := fcLoop{name: fmt.Sprintf("%s_loop%d", x.fn, len(x.loops)+1), vars: vars, cond: cond}
+	for _, v := range vars {
+		lp.next = append(lp.next, inner[v])
+	}
+	x.loops = append(x.loops, lp)
+	// fuel: the gap of the condition at the start + 1
+	a, b := x.eval(be.X, env, 'i'), x.eval(be.Y, env, 'i')
+	if be.Op == token.GTR {
+		a, b = b, a
+	}
+	fuel := fcBin("+", fcBin("-", b, a), fcConst(1))
+	args := []*fcx{fuel}
+	for _, v := range vars {
+		args = append(args, env[v])
+	}
+	for i, v := range vars {
+		env[v] = &fcx{op: "loopres", typ: 'i', name: lp.name, n: int64(i), a: args}
+	}
+	ok2 := &fcx{op: "loopok", typ: 'b', name: lp.name, a: args}
+	if cur, has := env["$loopsok"]; has {
+		env["$loopsok"] = fcAnd(cur, ok2)
+	} else {
+		env["$loopsok"] = ok2
+	}
 	return true
 }
 
@@ -1037,6 +1232,8 @@ func (x *fcExec) run(name string) (fcEnv, bool) {
 	}
 	x.seen = map[string]int{}
 	x.inputs = map[string]*fcx{}
+	x.fn = name
+	x.loops = nil
 	env := fcEnv{"$err": fcBool(false), "$ret": fcBool(false)}
 	for _, f := range fd.Type.Params.List {
 		typ := byte('?')
@@ -1077,6 +1274,7 @@ func fcLeanType(t byte) string {
 type fcDef struct {
 	name, doc string
 	v         *fcx
+	loop      *fcLoop // a loop definition instead of a value
 }
 
 // fcEmitDefs: one input record for all translated functions (every input any of them reads, with a
@@ -1084,6 +1282,13 @@ type fcDef struct {
 func fcEmitDefs(b *strings.Builder, defs []fcDef) {
 	all := map[string]*fcx{}
 	for _, d := range defs {
+		if d.loop != nil {
+			d.loop.cond.inputs(all)
+			for _, n := range d.loop.next {
+				n.inputs(all)
+			}
+			continue
+		}
 		d.v.inputs(all)
 	}
 	names := make([]string, 0, len(all))
@@ -1102,8 +1307,15 @@ func fcEmitDefs(b *strings.Builder, defs []fcDef) {
 		}
 		fmt.Fprintf(b, "  %s : %s := %s\n", n, fcLeanType(all[n].typ), dflt)
 	}
-	b.WriteString("\n")
+	b.WriteString("\n/-- component k of a loop state -/\ndef fcNth (s : List Int) (k : Nat) : Int := s.getD k 0\n\n")
 	for _, d := range defs {
+		if d.loop != nil {
+			fmt.Fprintf(b, "/-- the condition of %s -/\ndef %s_cond (i : In) (s : List Int) : Bool :=\n  %s\n\n", d.name, d.name, d.loop.cond.lean())
+			fmt.Fprintf(b, "/-- the state after one round of %s -/\ndef %s_next (i : In) (s : List Int) : List Int :=\n  %s\n\n", d.name, d.name, fcLeanList(d.loop.next))
+			fmt.Fprintf(b, "/-- %s -/\ndef %s (i : In) : Nat → List Int → Option (List Int)\n  | 0, s => if %s_cond i s = true then none else some s\n  | n + 1, s => if %s_cond i s = true then %s i n (%s_next i s) else some s\n\n",
+				d.doc, d.name, d.name, d.name, d.name, d.name)
+			continue
+		}
 		fmt.Fprintf(b, "/-- %s -/\ndef %s (i : In) : %s :=\n  %s\n\n", d.doc, d.name, fcLeanType(d.v.typ), d.v.lean())
 	}
 }
@@ -1344,7 +1556,7 @@ func genFormatCode(repo string) (string, error) {
 		{"dirTilde", []string{"c.out", "$err", "c.argPos"}},
 		{"dirPage", []string{"c.out", "$err", "c.argPos"}},
 		{"dirInt", []string{"$err"}},
-		{"dirAS", []string{"$err"}},
+		{"dirAS", []string{"$err", "#pad", "#out", "$loopsok"}},
 		{"nextArg", []string{"c.argPos", "$err"}},
 	}
 	var missing []string
@@ -1385,20 +1597,30 @@ func genFormatCode(repo string) (string, error) {
 			missing = append(missing, o.fn)
 			continue
 		}
+		for li := range x.loops {
+			lp := x.loops[li]
+			var vn []string
+			for _, v := range lp.vars {
+				vn = append(vn, strings.TrimPrefix(v, "#")+map[bool]string{true: " (length)", false: ""}[strings.HasPrefix(v, "#")])
+			}
+			defs = append(defs, fcDef{name: lp.name, loop: &lp,
+				doc: fmt.Sprintf("control.go %s: a `for <cond> { … }` loop over the state [%s]: `none` when the fuel does not suffice, else the state when the condition fails", o.fn, strings.Join(vn, ", "))})
+		}
+		x.loops = nil
 		for _, k := range o.keys {
 			v, has := env[k]
 			if !has || v.typ == '?' {
 				missing = append(missing, o.fn+"."+k)
 				continue
 			}
-			suffix := map[string]string{"$err": "err", "$retval": "result", "c.argPos": "argPos", "c.out": "out", "target@loop": "target"}[k]
+			suffix := map[string]string{"$err": "err", "$retval": "result", "c.argPos": "argPos", "c.out": "out", "target@loop": "target", "#pad": "padlen", "#out": "outlen", "$loopsok": "loopsok"}[k]
 			if suffix == "" {
 				suffix = k
 			}
 			doc := fmt.Sprintf("control.go %s: %s when the function returns (Go int as Int, `/` truncating; opaque sub-expressions are parameters)", o.fn,
-				map[string]string{"$err": "whether it has raised an error", "$retval": "the returned value", "c.argPos": "c.argPos", "c.out": "c.out"}[k]+
+				map[string]string{"$err": "whether it has raised an error", "$retval": "the returned value", "c.argPos": "c.argPos", "c.out": "c.out", "#pad": "the length of the byte slice `pad`", "#out": "the length of the byte slice `out` (the printed argument)", "$loopsok": "whether the fuel of its translated loops sufficed"}[k]+
 					map[bool]string{true: "", false: "the local `" + k + "`"}[suffix != k])
-			defs = append(defs, fcDef{o.fn + "_" + suffix, doc, v})
+			defs = append(defs, fcDef{name: o.fn + "_" + suffix, doc: doc, v: v})
 		}
 	}
 	fcEmitDefs(&b, defs)
